@@ -4,21 +4,36 @@ PLAN = dict(
     level="exploration",
     rule="tags: 8 constructions x {SM4, AES-128, DES, 3DES} x paddings (default, method 2, method 3 where selectable) x message "
          "lengths 0..80 x tag sizes (quick: full, half, 1+len mod bs; thorough: every size 1..block), each tag compared with the "
-         "reference on a fresh object, after 1-3 other messages, and twice on a slice with spare capacity; cmacstream: seeded random "
-         "Write/Sum/Reset histories on CMAC; inject: every single-bit flip of the last block with a full-size tag. Distinct = class "
-         "keys (configuration | construction / cipher / padding / length class / size class)",
+         "reference on a fresh object, after 1-3 other messages, and twice on a slice with spare capacity; method 3 also at 8191..8193 "
+         "bytes (third length byte); refused constructors (invalid size, both entry points) leave the key slices and a following "
+         "valid construction intact. buffers: constructions x ciphers x paddings (default, method 2, method 3, PKCS#7, X9.23 through "
+         "the WithPadding constructors) x 8 placements of the caller's two key slices (exact, dirty spare capacity, adjacent in one "
+         "buffer, the same slice twice, guard page at the end / at the start / misaligned, adjacent before a guard page): a "
+         "constructor history on the SAME slices (A, a refused call, an object of another construction, a second padding and size, "
+         "a twin of A, one object left unused; one shared parent cipher.Block or one per object), every object used interleaved on "
+         "messages in 6 buffer placements (exact, nil, spare capacity one short of / exactly / beyond the padding, guard pages) with "
+         "the key slices and the message compared with private copies after every call, the message buffer overwritten as soon as "
+         "MAC returned, all tags handed out re-compared at the end and then overwritten over their whole capacity, and finally the "
+         "key buffers overwritten, every tag against the reference for the original key values. cmacstream: seeded random "
+         "Write/Sum/Reset histories on CMAC with every chunk in a caller buffer of random placement that is overwritten after Write "
+         "returned, Sum appending to prefixes with spare capacity short of / exactly / beyond the tag (also ending at a guard page), "
+         "returned slices overwritten, Write's (n, err) and BlockSize(); inject: every single-bit flip of the last block with a "
+         "full-size tag. Distinct = class keys (configuration | construction / cipher / padding / length class / size class / "
+         "key or buffer placement)",
     jobs=both("c19.tags", _CFG, shards=(4, 8), floor=100) + both("c19.cmacstream", _CFG, shards=(2, 4), floor=100)
-    + both("c19.inject", _CFG, shards=(2, 4), floor=50),
+    + both("c19.inject", _CFG, shards=(2, 4), floor=50) + both("c19.buffers", _CFG, shards=(1, 8), floor=100),
     assumptions=["reference constructions in harness/ref/mac (validated at every child start against the GB/T 15852.1 annex B "
                  "vectors for SM4) over harness/ref/sm4 and the standard library's AES/DES/3DES"],
 )
 
 CLAIM = dict(
     text="Runtime monitoring of the eight cbcmac constructions against independent reference compositions: tag value, tag length, "
-         "Size(), independence of object history and of the caller's slice capacity, CMAC streaming histories, and single-bit "
-         "injectivity of the final-block transformation, over SM4 and 8/16-byte stdlib ciphers in three dispatch configurations.",
+         "Size(), independence of object history, of constructor history on the same key slices and of the placement, capacity and "
+         "later contents of every caller buffer (key slices, message, Write chunk, Sum destination, returned tags; none of them "
+         "modified or retained by the library), CMAC streaming histories, and single-bit injectivity of the final-block "
+         "transformation, over SM4 and 8/16-byte stdlib ciphers in five dispatch configurations.",
     design_ref="DESIGN.md 6 (C19)",
     note="trusted: harness/ref/mac, ref/pad, ref/sm4, stdlib AES/DES; the CBCR shift-not-rotate defect is an open finding matched "
          "by predicate + bug model",
-    technique="differential reference monitor + history-independence monitor + bit-flip injectivity sweep",
+    technique="differential reference monitor + history-independence and buffer-independence monitor (private copies, guard pages) + bit-flip injectivity sweep",
 )
